@@ -232,6 +232,8 @@ def gen_config(rng: random.Random, seed_tag: int, force_variant: str | None = No
         force_variant = 'NT'
     elif director == 'mixdeal':
         force_variant = 'custom'
+    elif director == 'multirun':
+        force_variant = rng.choice(['NT', 'NT', 'PO', 'FT', 'FO/8'])
     variant = force_variant or rng.choice(profile['variants'] if profile.get('variants') else
                                           list(VARIANTS) + ([] if profile.get('predefined') else ['custom'] * 2))
     autos, auto_mode = gen_autos(rng)
@@ -249,6 +251,10 @@ def gen_config(rng: random.Random, seed_tag: int, force_variant: str | None = No
         mode, warnerr = Mode.CASH_GAME, False
     if director == 'deck_boundary' and variant == 'NR':
         mode, boards = Mode.CASH_GAME, 1
+    if director == 'multirun':
+        # several starting boards AND three or more agreed run-outs after an all-in on a later street: the
+        # only place where the mapping of run-outs onto the shared early streets differs from b <= 2, r <= 2
+        mode, boards = Mode.CASH_GAME, rng.choice([2, 2, 3])
     if director == 'chop':
         rake_t, rake_kind = (rng.choice([5, 10]), 100, rng.choice([None, 3]), True), 'nfnd'
         boards = 1
@@ -485,6 +491,19 @@ def valid_ops(rng: random.Random, s: State, tune: dict) -> list[tuple[str, float
         # the late-seated poster holds the largest bet, un-faced: let him fold it (cash game, warning ignored)
         if s.bets[a] == max(s.bets) and list(s.bets).count(max(s.bets)) == 1 and s.can_fold():
             out.append(('fold', 60.0))
+    if d == 'multirun':
+        if s.actor_indices:
+            a = s.actor_index
+            if s.street_index < tune.get('shove_street', 1):
+                if s.can_check_or_call():
+                    out.append(('call', 60.0))
+            elif s.can_complete_bet_or_raise_to() and s.stacks[a] + s.bets[a] <= s.max_completion_betting_or_raising_to_amount:
+                out.append((f'cbr {s.stacks[a] + s.bets[a]}', 60.0))
+            elif s.can_check_or_call():
+                out.append(('call', 60.0))
+        if s.can_select_runout_count():
+            out.append((f"runout {tune.get('runs', 3)} -", 60.0))
+            out.append(('runout - -', 6.0))
     if d == 'deck_boundary':
         if s.can_deal_hole():
             j = s.hole_dealee_index
